@@ -2437,7 +2437,7 @@ fn evaluate_scalar_func(
                             "week" | "weeks" => {
                                 // Start of ISO week (Monday)
                                 let weekday = date.weekday().num_days_from_monday();
-                                date - chrono::Duration::days(weekday as i64)
+                                date.checked_sub_signed(chrono::Duration::days(weekday as i64))?
                             }
                             "month" | "months" => {
                                 NaiveDate::from_ymd_opt(date.year(), date.month(), 1)?
